@@ -29,7 +29,8 @@ REG = {
   text="FLexer states the lexical grammar declaratively (trivia, longest-match operator table, numeric automaton, string "
        "decoder, ES5 identifier classes); TLC checks Tiling, LongestMatch and Progress on every text of the bounded enumeration "
        "and computes the class of every critical code point; the dumps are replayed token by token into the real Scanner "
-       "(public API) and into the parser, and all 1,114,112 code points are classified by the real predicates.",
+       "(public API) and into the parser, and all 1,114,112 code points are classified by the real predicates; the line-break "
+       "rule for '.', '!.' and a call's '(' is checked on every postfix chain of up to 7 symbols (MC_Grammar postfix alphabet).",
   note="Trusted: TLC, frozen ES5 tables (cross-checked against Unicode categories). Extents of malformed lexemes are unpinned.",
   technique="TLA+ lexical specification model-checked with TLC; bounded-exhaustive replay into the real scanner and parser",
   design="DESIGN.md section 4/C14"),
@@ -37,8 +38,10 @@ REG = {
   text="FEval gives every formula an outcome in {value, error} (misuse listed by the statement pinned to 'error', unpinned cells "
        "marked 'unspec' = any value or error); TLC checks EvalTotal on the specification over every builtin / host function x "
        "argument tuples of every value kind x spread, every operator x operand pair, member access and calls of non-functions; "
-       "each case is replayed under recover + watchdog: a panic, a hang, or a value together with an error never conforms.",
-  note="Trusted: TLC, value projection (harness/proj). Bounded family, not all programs; random deeper programs are future work.",
+       "each case is replayed under recover + watchdog: a panic, a hang, a death of the process (fatal runtime error, attributed "
+       "to its case by a marked single-worker re-run) or a value together with an error never conforms; random programs recorded "
+       "through the resolve hook are validated node by node (Trace_Nodes) and as wholes (Trace_Expr).",
+  note="Trusted: TLC, value projection (harness/proj). Bounded families plus seeded random programs, not all programs.",
   technique="TLA+ evaluator specification (FEval/FBuiltins) model-checked with TLC; bounded-exhaustive replay into the real evaluator",
   design="DESIGN.md section 4/C03"),
  "C05": dict(
@@ -131,8 +134,8 @@ REG = {
   text="FCalendar is integer arithmetic on the proleptic Gregorian calendar (days-from-civil and its inverse, carry of out-of-range "
        "months and days, weekday, local fields from instant + offset); TLC checks CalendarSane and computes every case of the "
        "UTC family for replay; under four process-local zones with and without daylight saving the real builtins are recorded "
-       "and Trace_Time validates every event (local midnight, civil fields, Unix milliseconds on digit sequences, instant "
-       "preservation, shifts, layouts, now/toDay in the wall-clock bracket).",
+       "and Trace_Time validates every event (local midnight - or a witnessed jump of the local clock over it -, civil fields, Unix milliseconds on digit sequences, instant "
+       "preservation also at every half hour around the offset changes of the target zone, shifts, layouts, now/toDay in the bracket).",
   note="Trusted: TLC, Go's zone database for offsets (zone rules are inputs, not specified).",
   technique="TLA+ calendar specification model-checked with TLC; exhaustive replay (UTC) + TLC trace validation under several zones",
   design="DESIGN.md section 4/C19"),
@@ -148,7 +151,8 @@ REG = {
   text="MC_Purity has no variable through which one operation could influence another (parse = function of text, fresh-runner "
        "evaluation = function of (tree, data), analysis = function of tree; invariant Functional); every history up to N is "
        "executed in one process with tree re-use and full tree dumps before/after; a long random history recorded from one "
-       "process is validated by Trace_Purity, whose history variable holds the first observation of every key.",
+       "process is validated by Trace_Purity, whose history variable holds the first observation of every key; the recording is made "
+       "by two processes with opposite prologue orders, so observations are also compared across histories that share no process.",
   note="Trusted: TLC, the tree dump of the driver (everything reachable through exported fields and accessors).",
   technique="TLA+ history model checked with TLC; exhaustive history replay + TLC trace validation with a first-observation history variable",
   design="DESIGN.md section 4/C08"),
@@ -156,7 +160,9 @@ REG = {
   text="MC_Conc enumerates every interleaving of G goroutines evaluating shared trees at gate granularity (one gate per evaluated "
        "node) and checks SharedReadOnly, SeqEquivalent and NoInterference; every complete schedule is executed on real goroutines "
        "whose resolve hook blocks until the scheduler permits them, in a -race build, and each goroutine's result is compared with "
-       "the model's; free-running goroutines under the race detector are validated by Trace_Conc. A race-detector report is a violation.",
+       "the model's; free-running goroutines under the race detector (rounds on freshly parsed shared trees, released from one "
+       "barrier, no synchronisation between them; one tree whose analysis is refused; 3000-level trees evaluated by all at once) "
+       "are validated by Trace_Conc. A race-detector report is a violation.",
   note="Trusted: TLC, the Go race detector (it decides 'without data races' on the explored schedules), the gate handshake.",
   technique="TLA+ interleaving model checked with TLC; schedule replay with a blocking hook under the Go race detector + TLC trace validation of free-running runs",
   design="DESIGN.md section 4/C09"),
